@@ -1,6 +1,8 @@
 package proj
 
 import (
+	"encoding/json"
+	"os/exec"
 	"runtime/debug"
 	"bytes"
 	"fmt"
@@ -172,4 +174,38 @@ func panicSite() string {
 		return ""
 	}
 	return " (at " + strings.Join(out, " < ") + ")"
+}
+
+// OneShotMain runs one batch line in this process and prints the result as JSON (see RunFresh).
+func OneShotMain(root string, args []string) {
+	r := Run(root, args, nil)
+	b, _ := json.Marshal(r)
+	os.Stdout.WriteString("\n@@ONESHOT@@")
+	os.Stdout.Write(b)
+}
+
+// RunFresh executes the run in a fresh process (the verification binary itself in one-shot mode): the reference for
+// "what this line produces when nothing ran before it", also with respect to state kept at package level.
+func RunFresh(root string, args []string) *RunResult {
+	exe, err := os.Executable()
+	if err != nil {
+		return &RunResult{Panic: "RunFresh: " + err.Error(), Files: map[string]string{}}
+	}
+	cmd := exec.Command(exe, append([]string{"oneshot", root}, args...)...)
+	cmd.Env = append(os.Environ(), "GOMAXPROCS=2")
+	var errb bytes.Buffer
+	cmd.Stderr = &errb
+	out, err := cmd.Output()
+	res := &RunResult{Files: map[string]string{}}
+	if err != nil {
+		res.Panic = fmt.Sprintf("fresh process died: %v: %.300s", err, errb.String())
+		return res
+	}
+	if i := bytes.LastIndex(out, []byte("@@ONESHOT@@")); i >= 0 {
+		out = out[i+len("@@ONESHOT@@"):] // (the run may print progress lines before the result)
+	}
+	if err := json.Unmarshal(out, res); err != nil {
+		res.Panic = fmt.Sprintf("fresh process output: %v: %.200s", err, out)
+	}
+	return res
 }
